@@ -16,6 +16,20 @@
 #define DEPTH_T 9
 #endif
 
+// how many new connections ( reset_pdu_buffer() ) / PDUs with LLID 0 a path may contain, per tier
+#ifndef RESETS_Q
+#define RESETS_Q 1
+#endif
+#ifndef RESETS_T
+#define RESETS_T 1
+#endif
+#ifndef LLID0_Q
+#define LLID0_Q 1
+#endif
+#ifndef LLID0_T
+#define LLID0_T 1
+#endif
+
 #define STR2( x ) #x
 #define STR( x ) STR2( x )
 
@@ -53,6 +67,8 @@ int main( int argc, char** argv )
     rep.unit = a.opt.count( "unit" ) ? a.opt[ "unit" ] : "C15_ll_buffer-b" STR( BUF );
 
     static world_t w;
+    w.max_resets = int( a.num( "resets", a.thorough() ? RESETS_T : RESETS_Q ) );
+    w.max_llid0  = int( a.num( "llid0",  a.thorough() ? LLID0_T  : LLID0_Q ) );
 
     mc::BfsOptions o;
     o.max_depth  = int( a.num( "depth", a.thorough() ? DEPTH_T : DEPTH_Q ) );
@@ -63,6 +79,9 @@ int main( int argc, char** argv )
     if ( !a.replay.empty() )
     {
         w.want_obs = true;
+        // a trace may come from either tier
+        w.max_resets = RESETS_Q > RESETS_T ? RESETS_Q : RESETS_T;
+        w.max_llid0  = LLID0_Q > LLID0_T ? LLID0_Q : LLID0_T;
         return bfs.replay_file( mc::read_replay( a.replay ) );
     }
 
@@ -75,10 +94,11 @@ int main( int argc, char** argv )
     rep.sample( sample_run( w, { ev( C_DATA, FT_OK, 0, U_NONE ), ev( C_DATA, FT_OK, 0, U_NONE ), ev( C_DATA, FT_OK, 0, U_NONE ), ev( C_RETX, FT_OK, 0, U_NONE ), ev( C_RETX, FT_OK, 0, U_CONSUME_LATE ), ev( C_RETX, FT_OK, 0, U_CONSUME ) } ) );
     rep.sample( sample_run( w, { ev( C_EMPTY, FT_OK, 1, U_COMMIT1 ), ev( C_RETX, FT_LOST, 0, U_COMMITMAX ), ev( C_RETX, FT_OK, 0, U_NONE ), ev( C_EMPTY, FT_OK, 0, U_NONE ), ev( C_EMPTY, FT_OK, 0, U_NONE ) } ) );
 
+    rep.sample( sample_run( w, { ev( C_LLID0, FT_OK, 0, U_NONE ), ev( C_EMPTY, FT_OK, 1, U_COMMIT1 ), ev( C_DATA, FT_OK, 0, U_RESET ), ev( C_EMPTY, FT_OK, 0, U_COMMIT1 ), ev( C_EMPTY, FT_OK, 0, U_NONE ) } ) );
     rep.notes[ "world" ] = mc::fmt( "%s; ll_data_pdu_buffer<%d,%d,Radio>, max_rx_size = max_tx_size = 29, sizeof = %zu bytes, state image %zu bytes, ids and packet counters modulo %u%s",
         world_t::dut_t::dut_name(), BUF, BUF, sizeof( world_t::dut_t ), bfs.isz, IDM, FORCED ? ", central may repeat acknowledged PDUs" : "" );
-    rep.notes[ "bound" ] = mc::fmt( "all event sequences of %d connection events (alphabet %d, enabledness by reference state)%s",
-        o.max_depth, w.num_events(), rep.fixpoint ? "; fixpoint reached: every reachable state was expanded" : "; no fixpoint within the bound" );
+    rep.notes[ "bound" ] = mc::fmt( "all event sequences of %d connection events (alphabet %d, enabledness by reference state; at most %d new connection(s) and %d PDU(s) with LLID 0 per sequence)%s",
+        o.max_depth, w.num_events(), w.max_resets, w.max_llid0, rep.fixpoint ? "; fixpoint reached: every reachable state was expanded" : "; no fixpoint within the bound" );
     rep.counters[ "foreign-oracle-C15-failures-pruned" ] = w.foreign[ 0 ];
     rep.counters[ "foreign-oracle-C16-failures-ignored" ] = w.foreign[ 1 ];
     rep.counters[ "foreign-oracle-C17-failures-pruned" ] = w.foreign[ 2 ];
